@@ -48,7 +48,12 @@ _KEY = None
 _CERTS = {}
 CN_SHAPES = {0: (), 1: ("alice",), 2: ("alice", "bob"), 3: ("adm", "admin")}
 ONE_RDN = {3}            # shapes whose common names sit in ONE multi-valued RDN (CN=adm+CN=admin)
-EKU_SHAPES = ("absent", "server", "client", "both")
+EKU_SHAPES = ("absent", "server", "client", "both", "near20", "nearchild", "nearmulti", "anyeku", "prefix")
+# extended key usages that are NOT clientAuth (1.3.6.1.5.5.7.3.2) though their dotted text is close to it: longer last
+# arc, a child arc, the parent arc, anyExtendedKeyUsage (which the property does not accept for "carries clientAuth")
+NEAR_EKUS = {"near20": ["1.3.6.1.5.5.7.3.20"], "nearchild": ["1.3.6.1.5.5.7.3.2.1"],
+             "nearmulti": ["1.3.6.1.5.5.7.3.1", "1.3.6.1.5.5.7.3.21", "1.3.6.1.5.5.7.3.4", "1.3.6.1.5.5.7.3.28"],
+             "anyeku": ["2.5.29.37.0"], "prefix": ["1.3.6.1.5.5.7.3"]}
 
 
 def _key():
@@ -81,6 +86,8 @@ def make_cert(cns=("alice",), eku="client", serial=None, one_rdn=False):
         b = b.add_extension(x509.ExtendedKeyUsage([ExtendedKeyUsageOID.SERVER_AUTH]), False)
     elif eku == "both":
         b = b.add_extension(x509.ExtendedKeyUsage([ExtendedKeyUsageOID.SERVER_AUTH, ExtendedKeyUsageOID.CLIENT_AUTH]), False)
+    elif eku in NEAR_EKUS:
+        b = b.add_extension(x509.ExtendedKeyUsage([x509.ObjectIdentifier(o) for o in NEAR_EKUS[eku]]), False)
     elif eku != "absent":
         raise ValueError(eku)
     der = b.sign(key, hashes.SHA256()).public_bytes(serialization.Encoding.DER)
@@ -92,7 +99,9 @@ def cert_json(shape):
     """shape = None | {"cns": n, "eku": shape}  ->  the model's CERT object"""
     if shape is None:
         return None
-    eku = {"absent": None, "server": ["other"], "client": ["client"], "both": ["other", "client"]}[shape["eku"]]
+    eku = {"absent": None, "server": ["other"], "client": ["client"], "both": ["other", "client"]}.get(shape["eku"])
+    if shape["eku"] in NEAR_EKUS:
+        eku = ["other"] * len(NEAR_EKUS[shape["eku"]])
     return {"eku": eku, "cns": list(CN_SHAPES[shape["cns"]])}
 
 
